@@ -37,9 +37,11 @@ VARIABLES
   unack,    \* client id |-> set of inbound QoS2 packet ids awaiting PUBREL
   infl,     \* client id |-> set of outbound inflight entries [pid, tag, phase \in {"pub","rel"}, qos]
   last,     \* <<subscriber cid, publisher cid>> |-> highest publication index received (per-pair order)
-  ctr       \* counters [pub (publication index), oid (obligation ids)]
+  ctr,      \* counters [pub (publication index), oid (obligation ids)]
+  aux       \* [wills: client id |-> will not yet published [m, due, st], reg: client id |-> registered connection
+            \*  (from the broker's own register/unregister hook events), closedc: connections whose teardown finished]
 
-bvars == <<cfg, subs, conn, sess, owed, gowed, ctl, ret, unack, infl, last, ctr>>
+bvars == <<cfg, subs, conn, sess, owed, gowed, ctl, ret, unack, infl, last, ctr, aux>>
 
 API == "@api"         \* publisher id of the in-process Publisher
 RET == "@retained"    \* "publisher" of retained replays (exempt from the order clause)
@@ -51,7 +53,9 @@ Ctl(k)   == Get(ctl, k, {})
 Unack(c) == Get(unack, c, {})
 Infl(c)  == Get(infl, c, {})
 Up(k)    == k \in DOMAIN conn /\ conn[k].st = "up"
-Online(c) == c \in DOMAIN sess /\ sess[c].online # 0
+Online(c) == c \in DOMAIN sess /\ sess[c].online # 0 /\ conn[sess[c].online].st = "up"
+\* the client has ended (or seen the end of) the session's connection, the broker has not finished it yet (hook mode)
+Closing(c) == c \in DOMAIN sess /\ sess[c].online # 0 /\ conn[sess[c].online].st = "closing"
 SeqToSet(s) == {s[i] : i \in DOMAIN s}
 
 BInit(c) ==
@@ -59,6 +63,7 @@ BInit(c) ==
   /\ subs = {} /\ conn = <<>> /\ sess = <<>> /\ owed = <<>> /\ gowed = {}
   /\ ctl = <<>> /\ ret = <<>> /\ unack = <<>> /\ infl = <<>> /\ last = <<>>
   /\ ctr = [pub |-> 0, oid |-> 0]
+  /\ aux = [wills |-> <<>>, reg |-> <<>>, closedc |-> {}, srvended |-> {}]
 
 ----------------------------------------------------------------------------
 (* Sessions and connections                                                *)
@@ -69,9 +74,12 @@ StartExpiry(ver, clean, req) ==
   IF ver # 5 THEN (IF clean THEN 0 ELSE cfg.sessexpiry)
   ELSE IF req < 0 THEN 0 ELSE Min(req, cfg.sessexpiry)
 
-\* CONNECT written by the client on a fresh connection k
+NoWill == [has |-> FALSE]
+
+\* CONNECT written by the client on a fresh connection k (at harness time ms)
 \* lim = [maxpkt, aliasmax]: the client's Maximum Packet Size and Topic Alias Maximum (0 = not given)
-Connect(k, cid, ver, clean, recvmax, expiry, lim) ==
+\* w = NoWill or [has |-> TRUE, topic, lv, sys, qos, retain, tag, delay]
+Connect(k, cid, ver, clean, recvmax, expiry, lim, w, addr, ms) ==
   /\ k \notin DOMAIN conn
   /\ conn' = Put(conn, k, [cid |-> cid, ver |-> ver, st |-> "connecting", clean |-> clean, recvmax |-> recvmax,
                           expiry |-> StartExpiry(ver, clean, expiry), sawfresh |-> FALSE,
@@ -79,8 +87,10 @@ Connect(k, cid, ver, clean, recvmax, expiry, lim) ==
                           open |-> 0,          \* inbound QoS>0 publications on k the broker has not finished (C13)
                           aliasin |-> <<>>,    \* inbound alias bindings made on k
                           dying |-> {},        \* reason codes of the DISCONNECT the broker owes before closing k
-                          disc |-> FALSE])     \* that DISCONNECT has been read
-  /\ UNCHANGED <<cfg, subs, sess, owed, gowed, ctl, ret, unack, infl, last, ctr>>
+                          disc |-> FALSE,      \* that DISCONNECT has been read
+                          will |-> w, addr |-> addr, t0 |-> ms, force |-> FALSE, resumed |-> FALSE,
+                          bye |-> [has |-> FALSE, code |-> 0, exp |-> 0 - 1]])
+  /\ UNCHANGED <<cfg, subs, sess, owed, gowed, ctl, ret, unack, infl, last, ctr, aux>>
 
 \* the state a session is reduced to when its connection goes away: QoS0 copies not yet read may or may
 \* may not come later (opt), QoS>0 copies may come back with DUP (carried)
@@ -93,22 +103,57 @@ EndSessionState(c) ==
   /\ infl' = [x \in DOMAIN infl \ {c} |-> infl[x]]
   /\ gowed' = {g \in {[h EXCEPT !.members = {m \in h.members : m.c # c}] : h \in gowed} : g.members # {}}
 
-\* successful CONNACK read on k.  sp = Session Present; MustResume is what the specification demands.
-\* A previous connection of the same client id is displaced (its obligations are void from now on).
-MustResume(k) == ~conn[k].clean /\ conn[k].cid \in DOMAIN sess
+\* ---- time.  Harness milliseconds; an event logged at ms happened in the broker within [ms, ms + slack] for inputs
+\* (logged before the write) and within [ms - slack, ms] for outputs (logged after the read).
+WinMs == 450          \* decisive instants of timed scenarios keep at least this distance from every deadline
+WillLateMs == 500
 
-Connack(k, sp, code) ==
+\* C05: may / must the session of the CONNECT on k be resumed?  A session is over when a Clean Start, an administrative
+\* termination or the elapse of its expiry interval - measured from the end of its last connection - ended it.
+ResumeVerdicts(k, msa) ==
+  LET c == conn[k].cid IN
+  IF conn[k].clean \/ c \notin DOMAIN sess THEN {FALSE}
+  \* take-over of a live session: the displaced connection ends now, and with expiry interval 0 so does its session
+  ELSE IF sess[c].online # 0 THEN {conn[sess[c].online].expiry > 0 /\ ~conn[sess[c].online].force}
+  ELSE IF msa < sess[c].expireAt - WinMs THEN {TRUE}
+  ELSE IF conn[k].t0 > sess[c].expireAt + WinMs THEN {FALSE}
+  ELSE {TRUE, FALSE}
+
+\* C08: what becomes of the will of connection k of client c when that connection ends at ms
+\* (suppress: a DISCONNECT that removes the will; e: session expiry interval that now applies)
+Wills == aux.wills
+WillAtEnd(W, c, k, suppress, e, ms) ==
+  IF ~conn[k].will.has \/ suppress THEN W
+  ELSE LET d == IF e = 0 THEN 0 ELSE Min(conn[k].will.delay, e) IN
+       Put(W, c, [m |-> conn[k].will, due |-> ms + d * 1000, st |-> "pending"])
+
+\* the session of c has ended (clean start, termination, expiry): a will still waiting is published now
+WillAtSessionEnd(W, c, ms) ==
+  IF c \in DOMAIN W /\ W[c].st # "due" THEN [W EXCEPT ![c] = [@ EXCEPT !.due = Min(@, ms), !.st = "pending"]] ELSE W
+
+\* the session of c is resumed by a CONNECT logged at msc and acknowledged at msa: a will whose delay has not
+\* passed must not be published any more
+WillAtResume(W, c, msc, msa) ==
+  IF c \notin DOMAIN W THEN W
+  ELSE IF msa < W[c].due - WinMs THEN [x \in DOMAIN W \ {c} |-> W[x]]
+  ELSE IF msc > W[c].due + WinMs THEN W                   \* it was due before: it must have been / be published
+  ELSE [W EXCEPT ![c].st = "maybe"]
+
+\* Connection k of client c becomes THE connection of the session (sp: the session is resumed).
+\* A previous connection of the same client id is displaced (its obligations are void from now on; its will is
+\* treated like that of any connection that ended without DISCONNECT).
+Attach(k, sp, ms, st) ==
   LET c == conn[k].cid
-      mustResume == MustResume(k)
       old == IF c \in DOMAIN sess THEN sess[c].online ELSE 0
-      conn1 == IF old # 0 /\ old # k THEN [conn EXCEPT ![old].st = "down"] ELSE conn IN
-  /\ k \in DOMAIN conn /\ conn[k].st = "connecting"
-  /\ code = 0
-  /\ sp = mustResume
-  /\ conn' = [conn1 EXCEPT ![k].st = "up"]
-  /\ sess' = Put(sess, c, [online |-> k, ver |-> conn[k].ver])
+      conn1 == IF old # 0 /\ old # k THEN [conn EXCEPT ![old].st = "down"] ELSE conn
+      w1 == IF old # 0 /\ old # k THEN WillAtEnd(Wills, c, old, FALSE, conn[old].expiry, conn[k].t0) ELSE Wills
+      w2 == IF sp THEN WillAtResume(w1, c, conn[k].t0, ms) ELSE WillAtSessionEnd(w1, c, conn[k].t0) IN
+  /\ sp \in ResumeVerdicts(k, ms)
+  /\ conn' = [conn1 EXCEPT ![k].st = st, ![k].resumed = sp]
+  /\ sess' = Put(sess, c, [online |-> k, ver |-> conn[k].ver, expireAt |-> 0])
   /\ ctl' = IF old # 0 /\ old # k THEN Put(ctl, old, {}) ELSE ctl
-  /\ IF mustResume
+  /\ aux' = [aux EXCEPT !.wills = w2]
+  /\ IF sp
        THEN /\ owed' = Put(owed, c, Carry(Owed(c)))
             \* everything this session has received and not fully acknowledged must be retransmitted first (C03)
             /\ infl' = Put(infl, c, {[e EXCEPT !.rs = TRUE] : e \in Infl(c)})
@@ -116,32 +161,135 @@ Connack(k, sp, code) ==
        ELSE EndSessionState(c)
   /\ UNCHANGED <<cfg, ret, last, ctr>>
 
+\* successful CONNACK read on k at ms.  sp = Session Present must be a verdict the specification allows.
+\* Without instrumentation the CONNACK is where the connection is seen to attach.  With the broker's register events
+\* in the trace (cfg.hooks) the attachment happened at the register event, in the broker's own order - which is what
+\* makes traces with simultaneous CONNECTs on one client id explainable; the CONNACK must then carry the same verdict,
+\* and it may arrive after the connection has been displaced again.
+Connack(k, sp, code, ms) ==
+  /\ k \in DOMAIN conn /\ code = 0
+  /\ IF ~cfg.hooks
+       THEN conn[k].st = "connecting" /\ Attach(k, sp, ms, "up")
+       ELSE /\ conn[k].st \in {"registered", "down"} /\ conn[k].resumed = sp
+            /\ conn' = IF conn[k].st = "registered" THEN [conn EXCEPT ![k].st = "up"] ELSE conn
+            /\ UNCHANGED <<cfg, subs, sess, owed, gowed, ctl, ret, unack, infl, last, ctr, aux>>
+
 \* CONNACK with a failure code: the connection is dead, nothing else changes
 ConnackFail(k, code) ==
   /\ k \in DOMAIN conn /\ conn[k].st = "connecting"
   /\ code # 0
   /\ conn' = [conn EXCEPT ![k].st = "down"]
-  /\ UNCHANGED <<cfg, subs, sess, owed, gowed, ctl, ret, unack, infl, last, ctr>>
+  /\ UNCHANGED <<cfg, subs, sess, owed, gowed, ctl, ret, unack, infl, last, ctr, aux>>
 
-\* the connection k is over (client closed it, client sent DISCONNECT, or the broker closed it).
-\* The session outlives the connection iff its expiry interval is not 0; newexp >= 0 is the interval a v5
-\* DISCONNECT carried.  Once the connection is over nothing read on it is part of the trace any more.
-ConnEnd(k, newexp) ==
+\* the connection k is over at ms (client closed it, client sent DISCONNECT, or the broker closed it).
+\* The session outlives the connection iff its expiry interval is not 0 and it was not terminated; newexp >= 0 is the
+\* interval a v5 DISCONNECT carried; suppress: the DISCONNECT removed the will (reason code 0x00; any v3 DISCONNECT).
+\* Once the connection is over nothing read on it is part of the trace any more.
+ConnEnd(k, newexp, suppress, ms) ==
   LET c == conn[k].cid
-      e == IF newexp >= 0 /\ conn[k].ver = 5 THEN newexp ELSE conn[k].expiry
+      e0 == IF newexp >= 0 /\ conn[k].ver = 5 THEN newexp ELSE conn[k].expiry
+      e == IF conn[k].force THEN 0 ELSE e0
       keep == e > 0 IN
-  /\ k \in DOMAIN conn /\ conn[k].st # "down"
-  /\ conn' = [conn EXCEPT ![k].st = "down", ![k].expiry = e]
+  /\ k \in DOMAIN conn
+  /\ conn' = [conn EXCEPT ![k].st = "down", ![k].expiry = IF conn[k].st = "down" THEN @ ELSE e]
   /\ ctl' = Put(ctl, k, {})
   /\ IF c \in DOMAIN sess /\ sess[c].online = k
-       THEN IF keep
-              THEN /\ sess' = [sess EXCEPT ![c].online = 0]
+       THEN /\ aux' = [aux EXCEPT !.wills = WillAtEnd(Wills, c, k, suppress, e, ms)]
+            /\ IF keep
+              THEN /\ sess' = [sess EXCEPT ![c].online = 0, ![c].expireAt = ms + e * 1000]
                    /\ owed' = Put(owed, c, Carry(Owed(c)))
                    /\ UNCHANGED <<subs, unack, infl, gowed>>
               ELSE /\ sess' = [x \in DOMAIN sess \ {c} |-> sess[x]]
                    /\ EndSessionState(c)
-       ELSE UNCHANGED <<sess, owed, subs, unack, infl, gowed>>
+       ELSE UNCHANGED <<sess, owed, subs, unack, infl, gowed, aux>>
   /\ UNCHANGED <<cfg, ret, last, ctr>>
+
+\* ClientService.TerminateSession(c) entered at ms: the session ends whatever its expiry interval; an attached
+\* connection is closed by the broker (its end is observed separately)
+ApiTerminate(c, ms) ==
+  IF c \in DOMAIN sess /\ sess[c].online # 0
+    THEN /\ conn' = [conn EXCEPT ![sess[c].online].force = TRUE]
+         /\ UNCHANGED <<cfg, subs, sess, owed, gowed, ctl, ret, unack, infl, last, ctr, aux>>
+    ELSE /\ sess' = [x \in DOMAIN sess \ {c} |-> sess[x]]
+         /\ aux' = [aux EXCEPT !.wills = WillAtSessionEnd(Wills, c, ms)]
+         /\ EndSessionState(c)
+         /\ UNCHANGED <<cfg, conn, ctl, ret, last, ctr>>
+
+\* ---- events of the broker's own instrumentation (logged under its lock, in its order)
+Reg(c) == Get(aux.reg, c, "")
+
+\* a connection was put into the table of online clients: nobody else may be registered under that client id, and
+\* every earlier connection of that id has finished its teardown (C05: closed before the newer one is acknowledged)
+KOf(addr) == CHOOSE k \in DOMAIN conn : conn[k].addr = addr
+\* nobody else is registered under that client id, and every connection of that id which the BROKER ended (displaced,
+\* terminated ...: it was unregistered while its client had not ended it) has finished its teardown
+RegOK(c, addr) ==
+  /\ Reg(c) = ""
+  /\ \A a \in aux.srvended : (\E k \in DOMAIN conn : conn[k].addr = a /\ conn[k].cid = c) => a \in aux.closedc
+
+HookRegister(c, addr, resume, ms) ==
+  /\ RegOK(c, addr)
+  /\ \E k \in DOMAIN conn : conn[k].addr = addr /\ conn[k].cid = c /\ conn[k].st = "connecting"
+  /\ resume \in ResumeVerdicts(KOf(addr), ms)
+  /\ LET k == KOf(addr)
+         old == IF c \in DOMAIN sess THEN sess[c].online ELSE 0
+         conn1 == IF old # 0 /\ old # k THEN [conn EXCEPT ![old].st = "down"] ELSE conn
+         w1 == IF old # 0 /\ old # k THEN WillAtEnd(Wills, c, old, FALSE, conn[old].expiry, conn[k].t0) ELSE Wills
+         w2 == IF resume THEN WillAtResume(w1, c, conn[k].t0, ms) ELSE WillAtSessionEnd(w1, c, conn[k].t0) IN
+     /\ conn' = [conn1 EXCEPT ![k].st = "registered", ![k].resumed = resume]
+     /\ sess' = Put(sess, c, [online |-> k, ver |-> conn[k].ver, expireAt |-> 0])
+     /\ ctl' = IF old # 0 /\ old # k THEN Put(ctl, old, {}) ELSE ctl
+     /\ aux' = [aux EXCEPT !.wills = w2, !.reg = Put(@, c, addr)]
+     /\ IF resume
+          THEN /\ owed' = Put(owed, c, Carry(Owed(c)))
+               /\ infl' = Put(infl, c, {[e EXCEPT !.rs = TRUE] : e \in Infl(c)})
+               /\ UNCHANGED <<subs, unack, gowed>>
+          ELSE EndSessionState(c)
+  /\ UNCHANGED <<cfg, ret, last, ctr>>
+
+\* hook mode: what the client side saw of the end of connection k before the broker finished it
+ClientBye(k, code, exp) ==
+  /\ k \in DOMAIN conn
+  /\ conn' = [conn EXCEPT ![k].bye = [has |-> TRUE, code |-> code, exp |-> exp],
+                          ![k].st = IF @ = "up" \/ @ = "registered" THEN "closing" ELSE @]
+  /\ UNCHANGED <<cfg, subs, sess, owed, gowed, ctl, ret, unack, infl, last, ctr, aux>>
+
+ClientGone(k) ==
+  /\ k \in DOMAIN conn
+  /\ conn' = [conn EXCEPT ![k].st = IF @ = "up" \/ @ = "registered" THEN "closing" ELSE @]
+  /\ UNCHANGED <<cfg, subs, sess, owed, gowed, ctl, ret, unack, infl, last, ctr, aux>>
+
+\* the broker removed the connection from the table of online clients (its own event, under its lock): in hook mode
+\* this is where the connection ends for the session (expiry clock, will)
+HookUnregister(c, addr, ms) ==
+  LET k == KOf(addr)
+      srv == conn[k].st \notin {"closing", "down"}      \* the broker ended it: the client had not
+      b == conn[k].bye
+      e0 == IF b.has /\ b.exp >= 0 /\ conn[k].ver = 5 THEN b.exp ELSE conn[k].expiry
+      e == IF conn[k].force THEN 0 ELSE e0
+      suppress == b.has /\ (b.code = 0 \/ conn[k].ver # 5)
+      keep == e > 0
+      reg1 == Put(aux.reg, c, "")
+      se1 == IF srv THEN aux.srvended \cup {addr} ELSE aux.srvended IN
+  /\ Reg(c) = addr
+  /\ \E kk \in DOMAIN conn : conn[kk].addr = addr
+  /\ conn' = [conn EXCEPT ![k].st = "down", ![k].expiry = e]
+  /\ ctl' = Put(ctl, k, {})
+  /\ IF c \in DOMAIN sess /\ sess[c].online = k
+       THEN /\ aux' = [aux EXCEPT !.reg = reg1, !.srvended = se1, !.wills = WillAtEnd(Wills, c, k, suppress, e, ms)]
+            /\ IF keep
+              THEN /\ sess' = [sess EXCEPT ![c].online = 0, ![c].expireAt = ms + e * 1000]
+                   /\ owed' = Put(owed, c, Carry(Owed(c)))
+                   /\ UNCHANGED <<subs, unack, infl, gowed>>
+              ELSE /\ sess' = [x \in DOMAIN sess \ {c} |-> sess[x]]
+                   /\ EndSessionState(c)
+       ELSE /\ aux' = [aux EXCEPT !.reg = reg1, !.srvended = se1]
+            /\ UNCHANGED <<sess, owed, subs, unack, infl, gowed>>
+  /\ UNCHANGED <<cfg, ret, last, ctr>>
+
+HookClosed(addr) ==
+  /\ aux' = [aux EXCEPT !.closedc = @ \cup {addr}]
+  /\ UNCHANGED <<cfg, subs, conn, sess, owed, gowed, ctl, ret, unack, infl, last, ctr>>
 
 ----------------------------------------------------------------------------
 (* Subscriptions and retained replay                                       *)
@@ -179,7 +327,7 @@ Subscribe(k, pid, subid, ts) ==
   /\ owed' = Put(owed, c, r.owed)
   /\ ctr' = [ctr EXCEPT !.oid = r.oid]
   /\ ctl' = Put(ctl, k, Ctl(k) \cup {[t |-> "suback", pid |-> pid, codes |-> [i \in DOMAIN ts |-> ts[i].qos]]})
-  /\ UNCHANGED <<cfg, conn, sess, gowed, ret, unack, infl, last>>
+  /\ UNCHANGED <<cfg, conn, sess, gowed, ret, unack, infl, last, aux>>
 
 Unsubscribe(k, pid, names) ==
   LET c == conn[k].cid IN
@@ -187,7 +335,7 @@ Unsubscribe(k, pid, names) ==
   /\ subs' = {s \in subs : ~(s.c = c /\ s.n \in SeqToSet(names))}
   /\ gowed' = gowed    \* copies already decided stay owed to whoever was picked
   /\ ctl' = Put(ctl, k, Ctl(k) \cup {[t |-> "unsuback", pid |-> pid, n |-> IF conn[k].ver = 5 THEN Len(names) ELSE 0]})
-  /\ UNCHANGED <<cfg, conn, sess, owed, ret, unack, infl, last, ctr>>
+  /\ UNCHANGED <<cfg, conn, sess, owed, ret, unack, infl, last, ctr, aux>>
 
 \* a control packet of type t read on k: it must be owed, with these fields
 CtlRecv(k, pkt) ==
@@ -197,11 +345,11 @@ CtlRecv(k, pkt) ==
 
 Suback(k, pid, codes) ==
   /\ CtlRecv(k, [t |-> "suback", pid |-> pid, codes |-> codes])
-  /\ UNCHANGED <<cfg, subs, conn, sess, owed, gowed, ret, unack, infl, last, ctr>>
+  /\ UNCHANGED <<cfg, subs, conn, sess, owed, gowed, ret, unack, infl, last, ctr, aux>>
 
 Unsuback(k, pid, n) ==
   /\ CtlRecv(k, [t |-> "unsuback", pid |-> pid, n |-> n])
-  /\ UNCHANGED <<cfg, subs, conn, sess, owed, gowed, ret, unack, infl, last, ctr>>
+  /\ UNCHANGED <<cfg, subs, conn, sess, owed, gowed, ret, unack, infl, last, ctr, aux>>
 
 ----------------------------------------------------------------------------
 (* Publication: who is owed what                                           *)
@@ -246,7 +394,7 @@ Publication(src, m) ==
   LET cps  == {x \in Copies(src, m) : Keeps(x.c, x.qos) /\ Fits(x.c, m)}
       idx  == ctr.pub + 1
       mk(x) == [key |-> x.key, tag |-> m.tag, topic |-> m.topic, src |-> src, idx |-> idx, qos |-> x.qos,
-                retains |-> x.retains, ids |-> x.ids, anyids |-> FALSE, opt |-> FALSE, carried |-> FALSE,
+                retains |-> x.retains, ids |-> x.ids, anyids |-> FALSE, opt |-> (x.qos = 0 /\ Closing(x.c)), carried |-> Closing(x.c),
                 t0 |-> m.ms, L |-> Lifetime(m), orig |-> m.msgexp]
       gmk(g) == [share |-> g[1], n |-> g[2], tag |-> m.tag, topic |-> m.topic, src |-> src, idx |-> idx,
                  mqos |-> m.qos, retain |-> m.retain, t0 |-> m.ms, L |-> Lifetime(m), orig |-> m.msgexp,
@@ -295,19 +443,38 @@ ClientPublish(k, m) ==
             /\ ctl' = Put(ctl, k, Ctl(k) \cup ack)
             /\ conn' = [conn EXCEPT ![k].open = IF v5 /\ m.qos > 0 THEN @ + 1 ELSE @,
                                      ![k].aliasin = IF v5 /\ m.alias # 0 /\ ~m.notopic THEN Put(@, m.alias, m.topic) ELSE @]
-  /\ UNCHANGED <<cfg, subs, sess, infl, last>>
+  /\ UNCHANGED <<cfg, subs, sess, infl, last, aux>>
 
 \* DISCONNECT read from the broker on k: only when owed, with one of the demanded reason codes.  A client that
 \* stays within the advertised limits is never disconnected for them.
 SrvDisconnect(k, code) ==
   /\ k \in DOMAIN conn
-  /\ code \in conn[k].dying
+  /\ \/ code \in conn[k].dying
+     \* 0x8E Session taken over: only while / after another connection of the same client id takes over
+     \/ code = 142 /\ \E k2 \in DOMAIN conn : k2 # k /\ conn[k2].cid = conn[k].cid /\ conn[k2].t0 >= conn[k].t0
+     \* scenarios that make the client misbehave on purpose (malformed packet, keep-alive timeout): any error code
+     \/ cfg.anydisc /\ code >= 128
   /\ conn' = [conn EXCEPT ![k].disc = TRUE]
-  /\ UNCHANGED <<cfg, subs, sess, owed, gowed, ctl, ret, unack, infl, last, ctr>>
+  /\ UNCHANGED <<cfg, subs, sess, owed, gowed, ctl, ret, unack, infl, last, ctr, aux>>
 
 \* Publisher().Publish(m): delivery only (no OnMsgArrived, no retained store)
 ApiPublish(m) ==
   /\ Publication(API, m)
+  /\ UNCHANGED <<cfg, subs, conn, sess, ctl, ret, unack, infl, last, aux>>
+
+\* C08: the broker publishes the will of client c (its own hook event, at ms): only a will that is waiting, not
+\* before its delay has passed; the publication is an ordinary one from publisher c.
+WillEarlyMs == 200
+WillFire(c, topic, ms) ==
+  /\ c \in DOMAIN Wills
+  /\ Wills[c].m.topic = topic
+  /\ ms >= Wills[c].due - WillEarlyMs
+  /\ (Wills[c].st = "pending" => ms <= Wills[c].due + WillLateMs)
+  /\ LET w == Wills[c].m IN
+     Publication(c, [topic |-> w.topic, lv |-> w.lv, sys |-> w.sys, qos |-> w.qos, retain |-> w.retain, empty |-> FALSE,
+                     tag |-> w.tag, pid |-> 0, dup |-> FALSE, alias |-> 0, notopic |-> FALSE, size |-> 0, fsize |-> 0,
+                     msgexp |-> 0, ms |-> ms])
+  /\ aux' = [aux EXCEPT !.wills = [x \in DOMAIN Wills \ {c} |-> Wills[x]]]
   /\ UNCHANGED <<cfg, subs, conn, sess, ctl, ret, unack, infl, last>>
 
 \* PUBACK / PUBREC read on k: owed, with an acceptable reason code
@@ -318,7 +485,7 @@ PubAckRecv(k, t, pid, code) ==
   \* the exchange is finished for the broker's Receive Maximum: PUBACK, PUBCOMP, or a failing PUBREC
   /\ conn' = IF conn[k].ver = 5 /\ conn[k].open > 0 /\ (t = "puback" \/ t = "pubcomp" \/ (t = "pubrec" /\ code >= 128))
                THEN [conn EXCEPT ![k].open = @ - 1] ELSE conn
-  /\ UNCHANGED <<cfg, subs, sess, owed, gowed, ret, unack, infl, last, ctr>>
+  /\ UNCHANGED <<cfg, subs, sess, owed, gowed, ret, unack, infl, last, ctr, aux>>
 
 \* PUBREL written by the client: the broker owes a PUBCOMP; the id is free again
 ClientPubrel(k, pid) ==
@@ -326,7 +493,7 @@ ClientPubrel(k, pid) ==
   /\ Up(k)
   /\ unack' = Put(unack, c, Unack(c) \ {pid})
   /\ ctl' = Put(ctl, k, Ctl(k) \cup {[t |-> "pubcomp", pid |-> pid, codes |-> {0, 146}]})
-  /\ UNCHANGED <<cfg, subs, conn, sess, owed, gowed, ret, infl, last, ctr>>
+  /\ UNCHANGED <<cfg, subs, conn, sess, owed, gowed, ret, infl, last, ctr, aux>>
 
 ----------------------------------------------------------------------------
 (* Deliveries read from the broker                                          *)
@@ -419,7 +586,7 @@ Deliver(k, p) ==
         /\ UNCHANGED <<owed, gowed, last>>
   /\ conn' = IF p.dup THEN conn ELSE [conn EXCEPT ![k].sawfresh = TRUE]
   /\ ctr' = [ctr EXCEPT !.oid = @ + 1]
-  /\ UNCHANGED <<cfg, subs, sess, ctl, ret, unack>>
+  /\ UNCHANGED <<cfg, subs, sess, ctl, ret, unack, aux>>
 
 \* client acknowledges a delivery: PUBACK(pid) / PUBCOMP(pid) end it, PUBREC(pid) moves it to the PUBREL phase
 ClientAck(k, t, pid, code) ==
@@ -429,7 +596,7 @@ ClientAck(k, t, pid, code) ==
                THEN Put(infl, c, {e \in Infl(c) : e.pid # pid})
                ELSE Put(infl, c, {IF e.pid = pid THEN [e EXCEPT !.phase = "rel"] ELSE e : e \in Infl(c)})
   /\ ctl' = IF t = "pubrec" /\ code < 128 THEN Put(ctl, k, Ctl(k) \cup {[t |-> "pubrel", pid |-> pid]}) ELSE ctl
-  /\ UNCHANGED <<cfg, subs, conn, sess, owed, gowed, ret, unack, last, ctr>>
+  /\ UNCHANGED <<cfg, subs, conn, sess, owed, gowed, ret, unack, last, ctr, aux>>
 
 \* PUBREL read on k: owed after our PUBREC, or a retransmission for an entry in the PUBREL phase
 PubrelRecv(k, pid) ==
@@ -444,17 +611,17 @@ PubrelRecv(k, pid) ==
         /\ \E e \in Infl(c) : /\ e.pid = pid /\ e.phase = "rel" /\ IsNextResend(c, e)
                                /\ infl' = [infl EXCEPT ![c] = (@ \ {e}) \cup {[e EXCEPT !.rs = FALSE]}]
         /\ ctl' = ctl
-  /\ UNCHANGED <<cfg, subs, conn, sess, owed, gowed, ret, unack, last, ctr>>
+  /\ UNCHANGED <<cfg, subs, conn, sess, owed, gowed, ret, unack, last, ctr, aux>>
 
 Pingreq(k) ==
   /\ Up(k)
   /\ ctl' = Put(ctl, k, Ctl(k) \cup {[t |-> "pingresp", n |-> Cardinality({p \in Ctl(k) : p.t = "pingresp"}) + 1]})
-  /\ UNCHANGED <<cfg, subs, conn, sess, owed, gowed, ret, unack, infl, last, ctr>>
+  /\ UNCHANGED <<cfg, subs, conn, sess, owed, gowed, ret, unack, infl, last, ctr, aux>>
 
 Pingresp(k) ==
   /\ k \in DOMAIN conn
   /\ \E p \in Ctl(k) : p.t = "pingresp" /\ ctl' = [ctl EXCEPT ![k] = @ \ {p}]
-  /\ UNCHANGED <<cfg, subs, conn, sess, owed, gowed, ret, unack, infl, last, ctr>>
+  /\ UNCHANGED <<cfg, subs, conn, sess, owed, gowed, ret, unack, infl, last, ctr, aux>>
 
 ----------------------------------------------------------------------------
 (* Barrier: the driver has established that the broker has nothing more to say.                       *)
@@ -481,6 +648,8 @@ QuietOK(ms) ==
   /\ \A c \in DOMAIN sess : (Online(c) /\ ~Blocked(c)) => Resend(c) = {}   \* everything unacknowledged was retransmitted
   /\ \A g \in gowed : GroupParked(g) \/ Expired(g, ms) \/ \E mb \in g.members : Blocked(mb.c)
   /\ \A k \in DOMAIN conn : conn[k].st = "up" => Ctl(k) = {}
+  \* C08: a will whose time has come has been published
+  /\ \A c \in DOMAIN Wills : Wills[c].st = "pending" => ms <= Wills[c].due + WillLateMs
   \* a client that overstepped an advertised limit has been disconnected with the reason code
   /\ \A k \in DOMAIN conn : conn[k].dying # {} => (conn[k].st = "down" /\ conn[k].disc)
 
@@ -499,7 +668,7 @@ Dropped(c, tag, reason, ms) ==
      \/ /\ reason = "full"
         /\ Cardinality(Owed(c)) >= cfg.maxqueued
         /\ \E ob \in Owed(c) : ob.tag = tag /\ owed' = [owed EXCEPT ![c] = @ \ {ob}]
-  /\ UNCHANGED <<cfg, subs, conn, sess, gowed, ctl, ret, unack, infl, last, ctr>>
+  /\ UNCHANGED <<cfg, subs, conn, sess, gowed, ctl, ret, unack, infl, last, ctr, aux>>
 
 ----------------------------------------------------------------------------
 (* State invariants (evaluated on every state of every validated trace and in the model-checking runs) *)
